@@ -95,6 +95,35 @@ mod imp {
         })
     }
 
+    /// labels of other element types (round 11): (is the label of each item a null?, does it equal labels[j]?)
+    /// for the values [null, 1.0 (bin 0), 3.0 (bin 1), null]; `ty` selects the label type
+    pub const LABEL_TYPES: [&str; 7] = ["Time", "DateTime<ns>", "DateTime<s>", "TimeDelta", "String", "Option<bool>", "Option<usize>"];
+    pub fn cut_typed_labels(ty: usize, right: bool, add_bounds: bool) -> Outcome<Vec<(bool, Option<usize>, String)>> {
+        use tevec::prelude::{DateTime, Time, TimeDelta, unit};
+        let v: Vec<f64> = vec![f64::NAN, 1.0, 3.0, f64::NAN];
+        let bins: Vec<f64> = if add_bounds { vec![2.0] } else { vec![0.0, 2.0, 5.0] };
+        macro_rules! go {
+            ($labels:expr) => {{
+                let labels = $labels;
+                let it = v.titer().vcut(&bins, &labels, right, add_bounds).expect("label count is right");
+                it.map(|r| {
+                    let l = r.expect("every value lies in a bin");
+                    (l.is_none(), labels.iter().position(|x| !x.is_none() && format!("{x:?}") == format!("{l:?}")), format!("{l:?}"))
+                })
+                .collect::<Vec<_>>()
+            }};
+        }
+        catch(|| match ty {
+            0 => go!(vec![Time::from_hms(0, 0, 0), Time::from_hms(1, 2, 3)]),
+            1 => go!(vec![DateTime::<unit::Nanosecond>::new(0), DateTime::<unit::Nanosecond>::new(5)]),
+            2 => go!(vec![DateTime::<unit::Second>::new(0), DateTime::<unit::Second>::new(5)]),
+            3 => go!(vec![TimeDelta::parse("0s").unwrap(), TimeDelta::parse("1mo").unwrap()]),
+            4 => go!(vec!["".to_string(), "b".to_string()]),
+            5 => go!(vec![Some(false), Some(true)]),
+            _ => go!(vec![Some(0usize), Some(1usize)]),
+        })
+    }
+
     /// vcut on i64 values / edges given as base + offset (integers f64 cannot tell apart)
     pub fn run_cut_i64(vals: &[Option<i64>], edges: &[i64], n_labels: usize, right: bool, add_bounds: bool) -> Outcome<CutOut> {
         let v: Vec<Option<i64>> = vals.to_vec();
@@ -228,6 +257,38 @@ fn check_cut_sequences(max_len: usize, ctx: &mut Ctx) {
                             got: format!("{got:?}"),
                         });
                     }
+                }
+            }
+        }
+    }
+}
+
+/// labels of the time types, strings, optional bools / indices - in particular labels that are the type's
+/// *default* value (midnight, the epoch, the zero duration, "", false, 0): a null value gets the type's null,
+/// a value in a bin gets that bin's label
+fn check_cut_typed_labels(ctx: &mut Ctx) {
+    let fam = "cut-typed-labels";
+    for (ty, tname) in LABEL_TYPES.iter().enumerate() {
+        for right in [true, false] {
+            for add_bounds in [true, false] {
+                ctx.states += 1;
+                ctx.fam(fam).states += 1;
+                ctx.transitions += 4;
+                ctx.nontrivial(fam, hash_bytes(format!("{tname}{right}{add_bounds}").as_bytes()));
+                let got = cut_typed_labels(ty, right, add_bounds);
+                ctx.eval(fam, hash_bytes(format!("{got:?}").as_bytes()));
+                let want = vec![(true, None), (false, Some(0)), (false, Some(1)), (true, None)];
+                if !matches!(&got, Outcome::Ok(g) if g.iter().map(|(a, b, _)| (*a, *b)).collect::<Vec<_>>() == want) {
+                    ctx.violation(Violation {
+                        entry: "vcut (typed labels)".into(),
+                        finding: None,
+                        size: ty,
+                        case: json!({"family": fam, "label_type": tname, "values": "[null, 1, 3, null]", "right": right, "add_bounds": add_bounds}),
+                        expected: format!("(label is null, index of the label) = {want:?}"),
+                        got: format!("{got:?}"),
+                    });
+                } else {
+                    ctx.traces += 1;
                 }
             }
         }
@@ -569,6 +630,8 @@ fn main() {
             check_cut(&mut ctx);
         } else if stored["case"]["family"] == "unique-durations" {
             check_unique_durations(run.pick(4, 5), &mut ctx);
+        } else if stored["case"]["family"] == "cut-typed-labels" {
+            check_cut_typed_labels(&mut ctx);
         } else if stored["case"]["family"] == "cut-sequences" {
             check_cut_sequences(run.pick(4, 6), &mut ctx);
         } else if stored["case"]["family"] == "cut-null-labels" {
@@ -583,11 +646,12 @@ fn main() {
     check_cut(&mut ctx);
     check_cut_null_labels(&mut ctx);
     check_cut_sequences(run.pick(4, 6), &mut ctx);
+    check_cut_typed_labels(&mut ctx);
     check_unique(max_len, &mut ctx);
     check_unique_durations(run.pick(4, 5), &mut ctx);
     check_large(!run.quick(), &mut ctx);
     let meta = Meta {
-        rule: "cut: the whole value alphabet {null, MIN, -3, -1, 0, 1, 2, 5, 7, MAX} (f64 and Option<i32>) x every ascending subset of the edge pool {-1,0,2,5,7} x label counts 0..=6 x right x add_bounds; oracle = the unique interval containing the value (outer edges at -inf/+inf with open bounds), Err for no interval, call-level Err for a label-count mismatch, never a panic. unique: every non-decreasing and non-increasing word over {0,1,2,3} (all run-length compositions) with null blocks of 0..2 at head and tail, Keep::First / Keep::Last / vsorted_unique; oracle = first / last index of each maximal run. Beyond the small scope: 17..257 consecutive edges with values on and between every edge; 1..3 runs with lengths from {1,2,255,256,257}; the translation relation for i64 values and edges around +-2^60. Non-trivial = distinct parameter points / words. Also labels that are nulls themselves at every position (cut-null-labels: f64, Option<i32>, String labels; DESIGN 5.15). Round 9 (DESIGN 5.18): unique-durations - sorted TimeDelta words, including durations beyond the i64 nanosecond range, through vsorted_unique / vsorted_unique_idx against the run model. Round 10 (DESIGN 5.19): cut-sequences - every value word of length <= L over {null, below, on an edge, inside, above}: an item's label depends on that item alone, and every item after an Err item is still delivered.".into(),
+        rule: "cut: the whole value alphabet {null, MIN, -3, -1, 0, 1, 2, 5, 7, MAX} (f64 and Option<i32>) x every ascending subset of the edge pool {-1,0,2,5,7} x label counts 0..=6 x right x add_bounds; oracle = the unique interval containing the value (outer edges at -inf/+inf with open bounds), Err for no interval, call-level Err for a label-count mismatch, never a panic. unique: every non-decreasing and non-increasing word over {0,1,2,3} (all run-length compositions) with null blocks of 0..2 at head and tail, Keep::First / Keep::Last / vsorted_unique; oracle = first / last index of each maximal run. Beyond the small scope: 17..257 consecutive edges with values on and between every edge; 1..3 runs with lengths from {1,2,255,256,257}; the translation relation for i64 values and edges around +-2^60. Non-trivial = distinct parameter points / words. Also labels that are nulls themselves at every position (cut-null-labels: f64, Option<i32>, String labels; DESIGN 5.15). Round 9 (DESIGN 5.18): unique-durations - sorted TimeDelta words, including durations beyond the i64 nanosecond range, through vsorted_unique / vsorted_unique_idx against the run model. Round 10 (DESIGN 5.19): cut-sequences - every value word of length <= L over {null, below, on an edge, inside, above}: an item's label depends on that item alone, and every item after an Err item is still delivered. Round 11 (DESIGN 5.20): cut-typed-labels - labels of type Time, DateTime<ns|s>, TimeDelta, String, Option<bool>, Option<usize> whose first label is the type's default value: a null value gets the type's null, a value in a bin that bin's label.".into(),
         bounds: json!({"cut": {"edge_pool": [-1, 0, 2, 5, 7], "labels": "0..=6"}, "unique": {"alphabet": [0, 1, 2, 3], "L": max_len, "null_block": "0..=2 head x 0..=2 tail"}}),
         assumptions: vec!["finite values (the type's MIN and MAX included)".into()],
         exhaustive: true,
